@@ -10,29 +10,22 @@
 #include <cstdio>
 #include <cstdlib>
 #include <set>
+#include <map>
 #include <algorithm>
 
+std::string sanitizer_class_of(const std::string &errpath, const char *fallback, std::string *summary);
 namespace {
 int g_tier = 0; int g_runs = 0; const int MAX_RUNS = 500;
 
-struct ChildResult { std::set<std::string> classes; std::vector<uint32_t> decisions; };
+struct Focus { int f_op = -3, f_w = -1; int64_t f_b = 0, f_k = -1; std::string alter; };
+struct ChildResult { std::set<std::string> classes; std::vector<uint32_t> decisions; std::map<std::string, Focus> focus; };
 
-std::string sanitizer_class(const std::string &errpath, const char *fallback) {
-    // class = sanitizer:<error type>:<innermost function of /repo/src on the stack>
-    std::string txt; { FILE *f = fopen(errpath.c_str(), "r"); if (f) { char b[4096]; size_t n; while ((n = fread(b, 1, sizeof b, f)) > 0) txt.append(b, n); fclose(f); } }
-    std::string type = fallback, func = "?";
-    size_t p = txt.find("SUMMARY: ");
-    if (p != std::string::npos) {
-        size_t c = txt.find(": ", p + 9);
-        if (c != std::string::npos) { size_t e = txt.find_first_of(" \n", c + 2); type = txt.substr(c + 2, e - c - 2); }
-    }
-    size_t q = 0;
-    while ((q = txt.find(" in ", q)) != std::string::npos) {
-        size_t e = txt.find(' ', q + 4);
-        if (e != std::string::npos && txt.compare(e + 1, 10, "/repo/src/") == 0) { func = txt.substr(q + 4, e - q - 4); break; }
-        q += 4;
-    }
-    return "sanitizer:" + type + ":" + func;
+std::string sanitizer_class(const std::string &errpath, const char *fallback) { return sanitizer_class_of(errpath, fallback, nullptr); }
+
+int g_pipe_fd = -1;
+void progress_to_pipe(int f_op, int f_w, int64_t f_b, int64_t f_k, const char *alter) {
+    char b[512]; int n = snprintf(b, sizeof b, "P %d %d %lld %lld \t%s\n", f_op, f_w, (long long) f_b, (long long) f_k, alter);
+    if (g_pipe_fd >= 0 && n > 0) { ssize_t w = write(g_pipe_fd, b, (size_t) n); (void) w; }
 }
 
 ChildResult run_forked(const Plan &P) {
@@ -44,10 +37,11 @@ ChildResult run_forked(const Plan &P) {
     if (pid == 0) {
         close(fd[0]);
         int ef = open(errpath, O_WRONLY | O_CREAT | O_TRUNC, 0644); if (ef >= 0) { dup2(ef, 2); }
-        alarm(120);
+        alarm(300);
+        g_pipe_fd = fd[1]; g_progress = progress_to_pipe;
         RunOutcome o = run_check(P.prop, P, g_tier);
         std::string s;
-        for (auto &v : o.viol) s += "V " + v.cls + "\n";
+        for (auto &v : o.viol) { s += "V " + v.cls + "\n"; s += "F " + std::to_string(v.f_op) + " " + std::to_string(v.f_w) + " " + std::to_string(v.f_b) + " " + std::to_string(v.f_k) + " " + v.cls + "\t" + v.f_alter + "\n"; }
         s += "D";
         for (uint32_t d : o.decisions) s += " " + std::to_string(d);
         s += "\n";
@@ -63,13 +57,28 @@ ChildResult run_forked(const Plan &P) {
     else if (WIFEXITED(st) && WEXITSTATUS(st) == 77) res.classes.insert(sanitizer_class(errpath, "report"));
     else if (WIFEXITED(st) && WEXITSTATUS(st) != 0) res.classes.insert("exit_" + std::to_string(WEXITSTATUS(st)));
     unlink(errpath);
-    size_t pos = 0;
+    size_t pos = 0; Focus last_progress; bool have_progress = false;
     while (pos < buf.size()) {
         size_t e = buf.find('\n', pos); if (e == std::string::npos) e = buf.size();
         std::string line = buf.substr(pos, e - pos); pos = e + 1;
+        if (line.size() > 2 && line[0] == 'P') {
+            long long b2, k2; int n2 = 0;
+            if (sscanf(line.c_str() + 2, "%d %d %lld %lld %n", &last_progress.f_op, &last_progress.f_w, &b2, &k2, &n2) >= 4) { last_progress.f_b = b2; last_progress.f_k = k2; size_t tab = line.find('\t'); last_progress.alter = tab == std::string::npos ? "" : line.substr(tab + 1); have_progress = true; }
+            continue;
+        }
         if (line.size() > 2 && line[0] == 'V') res.classes.insert(line.substr(2));
+        else if (line.size() > 2 && line[0] == 'F') {
+            Focus fc; long long b2, k2; int n2 = 0; char clsbuf[256] = {0};
+            if (sscanf(line.c_str() + 2, "%d %d %lld %lld %n", &fc.f_op, &fc.f_w, &b2, &k2, &n2) >= 4) {
+                fc.f_b = b2; fc.f_k = k2; std::string rest = line.substr(2 + (size_t) n2); size_t tab = rest.find('\t');
+                std::string c = tab == std::string::npos ? rest : rest.substr(0, tab); if (tab != std::string::npos) fc.alter = rest.substr(tab + 1);
+                (void) clsbuf; if (!res.focus.count(c)) res.focus[c] = fc;
+            }
+        }
         else if (!line.empty() && line[0] == 'D') { char *p = (char *) line.c_str() + 1; while (*p) { char *q; unsigned long v = strtoul(p, &q, 10); if (q == p) break; res.decisions.push_back((uint32_t) v); p = q; } }
     }
+    // a child that died inside an image: the last announced crash point / alteration is the focus of the crash class
+    if (have_progress) for (auto &c : res.classes) if (!res.focus.count(c)) res.focus[c] = last_progress;
     return res;
 }
 
@@ -118,9 +127,22 @@ int shrink_main(Plan P, const char *cls_c, int tier) {
         printf("# NOT_REPRODUCED classes:"); for (auto &c : first.classes) printf(" %s", c.c_str()); printf("\n");
         return 3;
     }
+    // 0. engines B / C: narrow to the single crash point / alteration that produced the violation
+    {
+        bool has_focus = P.focus_k != -1 || !P.focus.empty(); for (auto &o : P.ops) if (o.fw >= 0) has_focus = true;
+        auto it = first.focus.find(cls);
+        if (!has_focus && it != first.focus.end()) {
+            Plan Q = P; const Focus &fc = it->second;
+            if (!fc.alter.empty()) Q.focus.push_back(fc.alter);
+            else if (fc.f_op >= 0 && fc.f_op < (int) Q.ops.size()) { Q.ops[fc.f_op].fw = fc.f_w; Q.ops[fc.f_op].fb = fc.f_b; }
+            else if (fc.f_op == -4) Q.focus_k = -2;
+            else if (fc.f_k >= 0) { Q.focus_k = fc.f_k; Q.focus_b = fc.f_b; }
+            if ((Q.focus_k != -1 || !Q.focus.empty() || fc.f_op >= 0) && fails(Q, cls)) P = Q;
+        }
+    }
     // 1. reads, then ops
     ddmin(P, &Plan::reads, cls, [](const Op &) { return false; });
-    ddmin(P, &Plan::ops, cls, [](const Op &o) { return o.kind == OP_CLOSE; });
+    ddmin(P, &Plan::ops, cls, [](const Op &o) { return o.kind == OP_CLOSE || o.fw >= 0; });
     ddmin(P, &Plan::reads, cls, [](const Op &) { return false; });
     // 2. faults and knobs
     try_mod(P, cls, [](Plan &q) { if (q.faults.stalls.empty() && q.faults.jumps.empty()) return false; q.faults.stalls.clear(); q.faults.jumps.clear(); return true; });
@@ -189,4 +211,28 @@ int shrink_main(Plan P, const char *cls_c, int tier) {
            P.faults.stalls.size() + P.faults.jumps.size(), P.decisions.size(), g_runs);
     fputs(P.to_text().c_str(), stdout);
     return 0;
+}
+
+// class = sanitizer:<error type>:<innermost function of /repo/src on the stack>
+std::string sanitizer_class_of(const std::string &errpath, const char *fallback, std::string *summary) {
+    std::string txt; { FILE *f = fopen(errpath.c_str(), "r"); if (f) { char b[4096]; size_t n; while ((n = fread(b, 1, sizeof b, f)) > 0) txt.append(b, n); fclose(f); } }
+    std::string type = fallback, func = "?";
+    size_t p = txt.find("SUMMARY: ");
+    if (p != std::string::npos) {
+        size_t c = txt.find(": ", p + 9);
+        if (c != std::string::npos) { size_t e = txt.find_first_of(" \n", c + 2); type = txt.substr(c + 2, e - c - 2); }
+        if (summary) { size_t e = txt.find('\n', p); *summary = txt.substr(p + 9, e == std::string::npos ? std::string::npos : e - p - 9); }
+    }
+    size_t q = 0;
+    while ((q = txt.find(" in ", q)) != std::string::npos) {
+        size_t e = txt.find(' ', q + 4);
+        if (e != std::string::npos && txt.compare(e + 1, 10, "/repo/src/") == 0) { func = txt.substr(q + 4, e - q - 4); break; }
+        q += 4;
+    }
+    if (summary && func != "?") *summary += " @ " + func;
+    static const char *memk[] = {"heap-buffer-overflow", "heap-use-after-free", "SEGV", "stack-buffer-overflow", "global-buffer-overflow", "use-after-poison", "unknown-crash",
+                                 "memcpy-param-overlap", "negative-size-param", "stack-use-after-scope", "dynamic-stack-buffer-overflow"};
+    for (const char *k : memk) if (type == k) type = "mem";
+    if (type.compare(0, 6, "signal") == 0) type = "mem";
+    return "sanitizer:" + type + ":" + func;
 }
